@@ -54,11 +54,16 @@ class C19(Cfg):
     def streams(self, tier, seed, work, dv):
         p = os.path.join(work, "product19.ops")
         lib.sh([dv, "enum19", "--out", p], check=True)
-        n = 50 if tier == "quick" else 5000
-        q = os.path.join(work, "random19.ops")
-        lib.sh([dv, "gen19", "--seed", str(seed), "--n", str(n), "--out", q], check=True)
-        return [("product token type(8) x remote behaviour(16) x local key(2) + invitation reuse / restart patterns", p, True),
-                ("random seed=%d n=%d" % (seed, n), q, False)]
+        # every case starts real services (database, peer manager, 30 s remote tasks) that live as long as the harness
+        # process: one process per chunk of 500 cases (a single run of 5000 cases exhausted threads / file descriptors
+        # after about 2200 cases — a limit of the harness, found by the thorough tier)
+        res = [("product token type(8) x remote behaviour(16) x local key(2) + invitation reuse / restart patterns", p, True)]
+        chunks = [(seed, 50)] if tier == "quick" else [(seed * 1000 + k, 500) for k in range(10)]
+        for sd, n in chunks:
+            q = os.path.join(work, "random19_%d.ops" % sd)
+            lib.sh([dv, "gen19", "--seed", str(sd), "--n", str(n), "--out", q], check=True)
+            res.append(("random seed=%d n=%d" % (sd, n), q, False))
+        return res
 
     def nontrivial(self, ops, outs):
         return any(o.startswith("res=true") or o.startswith("owned") or o.startswith("allowed") or o.startswith("invite ") for o in outs)
